@@ -419,16 +419,20 @@ def plan_C12(tier, seed, q):
     for s in range(shards):
         jobs.append(Job("rt", "matrix", {"prop": "C12", "tier": tier, "seed": seed, "from": s, "to": 0, "stride": shards, "extra": ex}, timeout=900 if q else 3300))
     jobs += e2e_jobs("C12", tier, seed, "mix", 200, 3000)
+    jobs += one("rt", "pollstream", "C12", tier, seed, timeout=1500 if q else 3300, extra={"n": 12 if q else 150})
     return {"level": "exploration",
             "rule": "configuration = (network in {tcp, unix, http, inproc} x {TLS, no TLS} + ws, header encoder, body codec, server poll/pipelining/direct-IO/"
-                    "context-buffer/NoCopy(json only), client pipelining/direct-IO, server and client buffer size in {default,64,4096,65536,262144}, how "
+                    "context-buffer/NoCopy(json only), client pipelining/direct-IO, server and client buffer size in {default,64,3000,4096,65536,70000,262144}, how "
                     "configured in {Options with constructors, Options with names, names plus conflicting constructors (name must win), Listen/Dial by "
                     "names}); quick = a seeded greedy pairwise-covering set (every pair of values of any two dimensions that the constraints allow, ~60 "
                     "configurations); thorough = that set + 3000 seeded random configurations; each runs the SAME seeded workload on real sockets (3 "
                     "callers x 2 connections x 8 operations incl. a 300 KB message in both directions, failing calls of five kinds, pings, one stream "
                     "per connection; ws: one caller, calls only) and every outcome is compared with the reference given by the pure reply function / the "
-                    "server's error text; plus memnet scenarios (engine e2e, profile mix) whose unexpected failures count as C12; distinct = distinct "
-                    "configuration",
+                    "server's error text; plus memnet scenarios (engine e2e, profile mix) whose unexpected failures count as C12; plus engine 'pollstream' in "
+                    "its TLS-versus-plain mode: the same 'client with open streams and blocked handlers goes away' scenario (orderly close, close after an "
+                    "undecodable frame, link cut in the middle of a frame / of a TLS record) is run over the plain network and over TLS against the same "
+                    "kind of server, and the two must end the same way; the buffer sizes now also include 100, 3000 and 70000 (not pool size classes); "
+                    "distinct = distinct configuration",
             "jobs": jobs, "min_evaluations": 40, "min_distinct": 40, "parallel": 12,
             "assumptions": R_ASSUME + ["ws under poll mode is excluded: it stalls inside hslam/websocket + hslam/netpoll (dependency) on a zero-length answer or a message larger than the buffer",
                                        "wss is not in the statement's set", "NoCopy is combined with the json body codec only, as the statement says"]}
